@@ -219,7 +219,7 @@ NOT_APPLICABLE = {}
 EXTRA = {
     'C01': 'Also: every accumulation into the WHFast jerk buffer has dimension L T^-4 and all other sums in reb_whfast_calculate_jerk are homogeneous (R01.9); the SEI '
            'epicycle operator, summarised algebraically, is the exact flow of Hill\'s equations over dt/2 with the constants its init routine stores (R01.8); the catch-up loops for user '
-           'ODEs and for the TRACE/MERCURIUS sub-steps order times validly for both signs of the step and clamp their last sub-step (R08.8). A shortened last step of an exact_finish_time integration requested through Simulationarchive.getSimulation starts from a synchronised state (R09.11). Loops that accumulate the central body\'s acceleration never read it in the same loop (R01.10); every caller hands the Kepler solver G times a mass (R03.3); the N-body ODE that BS registers for itself is released before any other integrator advances the registered ODEs (R01.11).',
+           'ODEs and for the TRACE/MERCURIUS sub-steps order times validly for both signs of the step and clamp their last sub-step (R08.8). A shortened last step of an exact_finish_time integration requested through Simulationarchive.getSimulation starts from a synchronised state (R09.11). Loops that accumulate the central body\'s acceleration never read it in the same loop (R01.10); every caller hands the Kepler solver G times a mass (R03.3); the N-body ODE that BS registers for itself is released before any other integrator advances the registered ODEs (R01.11); every integrator reached through reb_integrator_part1 sets gravity_ignore_terms, or uses a gravity mode that does not read it, before its forces are evaluated (R01.12).',
     'C02': 'Also: the iteration spaces of the direct, compensated and hybrid-interaction pair loops equal the specified pair set (each pair once) for every ordering of N_active, '
            'test-particle count, test-particle type and gravity_ignore_terms in a complete small family (R02.8); integer variables of the hybrid integrators are typed global/compact '
            'index and never cross (R02.9); every sum, accumulation and comparison of the force routines and kick/drift/jump operators is dimensionally homogeneous over (L,T,M) (R02.4); '
